@@ -262,7 +262,18 @@ def analyse(F, b, params):
     K.vis_true = None
     K.insert_is_test = False
     K.contains_key = K.insert_key = None
-    if len(inserts) != 1:
+    once_key = None
+    if not inserts:
+        # `visited.extend(std::iter::once(k))` marks exactly k: the same mark as insert(k), without its result
+        for xbi, xt in calls_in(b, lambda t: on_vis(t, 'extend')):
+            xa = strip_payload(pv.of_operand(xt['args'][1])) if len(xt['args']) > 1 else None
+            if isinstance(xa, tuple) and xa and xa[0] == 'call' and xa[1] in ('std::iter::once', 'core::iter::once') and xa[2]:
+                once_key = (xbi, xt, xa[2][0]) if once_key is None else False
+    if once_key:
+        K.sites['INSERT'] = once_key[0]
+        K.insert_key = once_key[2]
+        K.n_insert = 1
+    elif len(inserts) != 1:
         K.missing.append('INSERT(%d)' % len(inserts))
     else:
         ibi, itt = inserts[0]
